@@ -69,6 +69,12 @@ def _items(b):
     return list(b.items) if hasattr(b, "items") and not isinstance(b, dict) else list(b)
 
 
+def _c(x):
+    """a length field that is about to be used as an index: under the symbolic engine __index__ forks
+    over every feasible value, on plain ints it is the identity"""
+    return x if isinstance(x, int) else x.__index__()
+
+
 def _lenient(ref_strict, ref_alt):
     ref_strict.lenient = True
     ref_strict.alt = ref_alt
@@ -91,18 +97,16 @@ def parse(buf, auth_required, validate=None):
     nm = b[1]
     if n < nm + 2:
         return Ref("pending", replies, stage="greeting", stage_len=n)
+    nm = _c(nm)
     want = M_USERPASS if auth_required else M_NOAUTH
     offered = False
-    i = 2
-    while i < nm + 2:
+    for i in range(2, 2 + nm):
         if b[i] == want:
             offered = True
-        i += 1
     if not offered:
         return Ref("reject", replies, "method", stage="greeting", stage_len=n, why="required method not offered")
     replies = replies + [[VER, want]]
     pos = 2 + nm
-    pos = pos.__index__() if not isinstance(pos, int) else pos
     # ---- RFC 1929 section 2:  VER ULEN UNAME PLEN PASSWD
     user = password = None
     auth_ver_bad = None
@@ -113,11 +117,11 @@ def parse(buf, auth_required, validate=None):
         ul = b[pos + 1]
         if m < 2 + ul + 1:
             return Ref("pending", replies, stage="auth", stage_len=m)
-        ul = ul.__index__() if not isinstance(ul, int) else ul
+        ul = _c(ul)
         pl = b[pos + 2 + ul]
         if m < 2 + ul + 1 + pl:
             return Ref("pending", replies, stage="auth", stage_len=m)
-        pl = pl.__index__() if not isinstance(pl, int) else pl
+        pl = _c(pl)
         user = b[pos + 2 : pos + 2 + ul]
         password = b[pos + 3 + ul : pos + 3 + ul + pl]
         auth_ver_bad = b[pos] != 1
@@ -148,6 +152,17 @@ def _request(b, pos, replies, user, password):
     if b[pos + 1] != CMD_CONNECT:
         # BIND / UDP ASSOCIATE / unknown: "command not supported"
         return Ref("reject", replies, REP_CMD_NOT_SUPPORTED, why="CMD != CONNECT", **kw)
+    if m < 3:
+        return Ref("pending", replies, **kw)
+    r = _address(b, pos, m, replies, kw)
+    if b[pos + 2] != 0:
+        # RSV "must be X'00'"; the RFC gives no reply code for a violation
+        strict = Ref("reject", replies, "any", why="RSV != 0", **kw)
+        return _lenient(strict, r)
+    return r
+
+
+def _address(b, pos, m, replies, kw):
     if m < 4:
         return Ref("pending", replies, **kw)
     atyp = b[pos + 3]
@@ -163,16 +178,13 @@ def _request(b, pos, replies, user, password):
         return Ref("reject", replies, REP_ATYP_NOT_SUPPORTED, why="unknown ATYP", **kw)
     if m < off + alen + 2:
         return Ref("pending", replies, **kw)
-    alen = alen.__index__() if not isinstance(alen, int) else alen
+    alen = _c(alen)
     addr = b[pos + off : pos + off + alen]
     p = pos + off + alen
     port = b[p] * 256 + b[p + 1]
     rest = b[p + 2 :]
-    atyp = atyp.__index__() if not isinstance(atyp, int) else atyp
+    atyp = _c(atyp)
     ok = Ref("connect", replies, REP_OK, atyp=atyp, addr=addr, port=port, rest=rest, **kw)
-    if b[pos + 2] != 0:
-        strict = Ref("reject", replies, "any", why="RSV != 0", **kw)
-        return _lenient(strict, ok)
     if atyp == ATYP_DOMAIN and alen == 0:
         strict = Ref("reject", replies, "any", why="empty domain name", **kw)
         return _lenient(strict, ok)
